@@ -202,10 +202,10 @@ def run(ctx):
                     ok = not any(k in fty for k in ("Arc<", "Rc<", "&", "Mutex<", "static"))
                     ctx.ob("N2", it["path"], f"generator-owned:{fname}", loc(it["sp"]), ok, f"generator field type {fty}", ordinal=False)
     # ---------------- N3 packet ids -----------------------------------------------------------------
-    inc = [b for b in bodies if b.method == "increase_packet_id"]
+    inc = [b for b in bodies if b.method == "increase_packet_id" and b.root == b.defp]
     ctx.floor("N3", "client packet-id increment", 1, len(inc))
     for b in inc:
-        ms = [c.method for (_, c, _) in b.calls()]
+        ms = [c.method for fb in prog.family(b.defp) for (_, c, _) in fb.calls()]
         wraps = "wrapping_add" in ms or "overflowing_add" in ms
         ctx.ob("N3", b.defp, "increment-does-not-wrap", loc(b.sp), not wraps and ("checked_add" in ms or "saturating_add" in ms or any(True for blk in b.rpo() if b.term(blk) and b.term(blk)["k"] == "assert")),
                "packet id increment is checked" if not wraps else "packet id uses wrapping_add: at u64::MAX it wraps to 0 and IDs are reused instead of the session ending")
